@@ -44,6 +44,8 @@ type Exec struct {
 	writeSets map[*ssa.Function]map[string]bool
 	pureMemo  map[string]Val
 	notedFacts map[string]bool
+	group     string            // current obligation group (see Obligation.Group)
+	groupN    int
 	alias     map[string]string // recorded name -> name now at the same position (renamed variables)
 	pending   []string
 	qpending  []string // type facts of loads that mention quantified variables (closed by evalQuant)
@@ -227,6 +229,9 @@ func (f *frame) assert(kind, desc, goal string, cl *Clause, pos string) {
 		if len(cl.Props) > 0 {
 			o.Props = cl.Props
 		}
+	}
+	if o.KF == "" && !o.Bounded {
+		o.Group = x.group
 	}
 	x.vc.AddObl(o)
 	if o.KF == "" {
@@ -600,6 +605,9 @@ func (f *frame) keepAt(where, pos string, at *ssa.BasicBlock) {
 	if x.top == nil || len(x.top.Keeps) == 0 {
 		return
 	}
+	x.groupN++
+	x.group = fmt.Sprintf("keep.%s.%d", where, x.groupN)
+	defer func() { x.group = "" }()
 	env := x.baseEnv(f.st)
 	if at != nil && f.names != nil {
 		st := f.st
